@@ -180,10 +180,12 @@ class Interp:
             "itertools.product": PyFunc(lambda *a, repeat=1: list(__import__("itertools").product(*[list(q) for q in a], repeat=repeat)), "product", True),
             "itertools.chain": PyFunc(lambda *a: [y for q in a for y in q], "chain", True),
             "itertools.combinations": PyFunc(lambda a, r: list(__import__("itertools").combinations(list(a), r)), "combinations", True),
+            "collections.namedtuple": PyFunc(lambda name, fields, **k: PyFunc(lambda *a, **kw: tuple(a) + tuple(kw[f] for f in fields[len(a):]), name, True), "namedtuple", True),
             "string": Obj("module:string", {"ascii_lowercase": "abcdefghijklmnopqrstuvwxyz",
                                             "ascii_uppercase": "ABCDEFGHIJKLMNOPQRSTUVWXYZ"}),
         }
         self.class_call_hook = None
+        self.overrides: Dict[str, Any] = {}      # 'module.function' -> value replacing the repository definition
         # classes whose instances (Obj of that kind) resolve attributes through the repository source
         self.instance_classes = {"MultiVector": "multivector.MultiVector", "TapeRecorder": "taperecorder.TapeRecorder",
                                  "GraphWidget": "graph.GraphWidget"}
@@ -513,6 +515,13 @@ class Interp:
             raise Raised("AttributeError", node)
         return Unk(name)
 
+    def _namedtuple_fields(self, name):
+        for mname, mod in self.repo.modules.items():
+            for st in mod.tree.body:
+                if isinstance(st, ast.ClassDef) and st.name == name and any(un(b) in ("NamedTuple", "typing.NamedTuple") for b in st.bases):
+                    return [x.target.id for x in st.body if isinstance(x, ast.AnnAssign) and isinstance(x.target, ast.Name)]
+        return None
+
     def _class_def(self, cls_name, attr):
         """Definition of `attr` in the class body (follows one level of class-level aliasing)."""
         qual = self.instance_classes[cls_name]
@@ -576,6 +585,13 @@ class Interp:
                 r = self.class_call_hook(f.name, args, kwargs)
                 if r is not NotImplemented:
                     return r
+            fields = self._namedtuple_fields(f.name)
+            if fields is not None:
+                vals = dict(zip(fields, args))
+                vals.update(kwargs)
+                o = Obj(f.name, {k: vals.get(k) for k in fields})
+                o.attrs["__fields__"] = fields
+                return o
             if f.name in ("list", "tuple") and len(args) == 1 and isinstance(args[0], (list, tuple, GenList)):
                 return list(args[0]) if f.name == "list" else tuple(args[0])
             if f.name == "str" and len(args) == 1 and not kwargs:
@@ -924,6 +940,8 @@ class Interp:
         return out
 
     def compare(self, op, a, b, node):
+        if isinstance(op, (ast.Is, ast.IsNot)) and (isinstance(a, (Obj, T, Closure, ClassRef)) or isinstance(b, (Obj, T, Closure, ClassRef)) or a is None or b is None):
+            return (a is b) if isinstance(op, ast.Is) else (a is not b)
         if isinstance(a, Obj) and "compare" in a.methods:
             r = a.methods["compare"](type(op).__name__, b)
             if r is not NotImplemented:
@@ -1047,6 +1065,8 @@ class Env:
         repo = interp.repo
         if self.module in repo.modules:
             q = f"{self.module}.{name}"
+            if q in interp.overrides:
+                return interp.overrides[q]
             if repo.has(q):
                 node = repo.lookup(q)
                 if isinstance(node, ast.FunctionDef):
